@@ -175,11 +175,38 @@ class C02(Plugin):
         cfg['p_query'] = rng.choice([0.0, 0.3, 0.5])
         cfg['check_mode'] = rng.choice(['every', 'every', 'end', 'end_and_mid'])
         cfg['p_hold'] = rng.choice([0.0, 0.15])
+        cfg['p_par'] = rng.choice([0.0, 0.1, 0.25])      # par() / unpar() as edits
+        cfg['p_offset'] = rng.choice([0.0, 0.0, 0.15])    # pure-trivia put_src(action='offset') as edits
         cfg['max_lines'] = 40
         return cfg
 
     def start(self):
         self.views = {}
+
+    def gen_par_op(self, rng):
+        """par() / unpar() of an expression or pattern node; unpar is biased to nodes that are parenthesized in the source."""
+        run = self.run
+        tree = run.root.a
+        lines = run.root.src.split('\n')
+        cands, parenthesized = [], []
+        for path, node, parent, field, idx in O.all_nodes(tree):
+            if O.node_cat(node, parent, field) not in ('expr', 'pattern') or not hasattr(node, 'end_col_offset'):
+                continue
+            cands.append(path)
+            try:
+                before = lines[node.lineno - 1].encode()[:node.col_offset].decode().rstrip()
+                after = lines[node.end_lineno - 1].encode()[node.end_col_offset:].decode().lstrip()
+            except Exception:
+                continue
+            if before.endswith('(') and after.startswith(')'):
+                parenthesized.append(path)
+        if not cands:
+            return None
+        if parenthesized and rng.random() < 0.6:
+            return {'k': 'unpar', 'path': [list(p) for p in rng.choice(parenthesized)], 'node': rng.choice([False, False, True])}
+        if rng.random() < 0.5:
+            return {'k': 'unpar', 'path': [list(p) for p in rng.choice(cands)], 'node': rng.choice([False, False, True])}
+        return {'k': 'par', 'path': [list(p) for p in rng.choice(cands)], 'force': rng.choice([False, True])}
 
     def gen_op(self, rng):
         run = self.run
@@ -202,11 +229,30 @@ class C02(Plugin):
             if c:
                 path, f, n = rng.choice(c)
                 return {'k': 'hold_view', 'path': [list(p) for p in path], 'field': f, 'name': f'v{run.step}'}
+        r = rng.random()
+        if r < run.cfg.get('p_par', 0):
+            return self.gen_par_op(rng)
+        if r < run.cfg.get('p_par', 0) + run.cfg.get('p_offset', 0):
+            from .props_c10 import gen_offset_op
+            return gen_offset_op(rng, run.root.src)
         return O.gen_edit(rng, tree, run.cfg)
 
     def apply(self, op):
         from . import queries
         run = self.run
+        if op['k'] in ('par', 'unpar'):
+            f = O.resolve_f(run.root, op['path'])
+            run.stats['op_' + op['k']] += 1
+            if op['k'] == 'par':
+                return f.par(op.get('force', False))
+            return f.unpar(op.get('node', False))
+        if op['k'] == 'offset':
+            from .props_c10 import offset_precondition
+            if offset_precondition(run.root.src, op) is not None:
+                raise O.Skip('offset precondition')
+            f = O.resolve_f(run.root, op['path'])
+            run.stats['op_offset_put_src'] += 1
+            return f.put_src(op['text'], *op['rect'], 'offset')
         if op['k'] == 'query':
             only = set(op['paths']) if op['paths'] is not None else None
             queries.query_tree(run.root, op.get('level', 2), only)
@@ -233,6 +279,15 @@ class C02(Plugin):
         run.stats['nodes_compared'] += len(live)
         if live != fresh:
             d = queries.diff(live, fresh)
+            # input predicates for the known-findings file: the root's default indentation unit is inferred once, when
+            # the tree is built; a fresh tree of the CURRENT source may infer another one
+            P = set()
+            if getattr(run.root, 'indent', None) != getattr(fresh_root, 'indent', None):
+                P.add('root_indent_differs_from_fresh')
+            full = queries.diff(live, fresh, limit=10 ** 6)
+            if full and all(len(x) == 4 and x[1] in ('own_src', 'own_lines') for x in full):
+                P.add('only_own_src_differs')
+            self.last_P = P
             raise Violation('answer_differs_from_fresh_tree', repr(d)[:1500])
         # held whole-field views
         for name, (v, f, field) in self.views.items():
@@ -268,3 +323,6 @@ class C02(Plugin):
 
     def finish(self):
         self.compare()
+
+    def extra_sig(self):
+        return {'predicates': sorted(getattr(self, 'last_P', ()))}
